@@ -21,6 +21,11 @@ Space (enumerated completely):
      letter-layer counts cap-1/cap/cap+1, 1296 upper-case columns (a column called 'ATM' next to the atmosphere block
      'ATM 0'), thorough: 18277/18278/18279 nodes (26+26^2+26^3) and 17575/17576 nodes (26^3, no blanks), 18276..18278
      three-letter layers - x convention x atmosphere type x justify;
+  ED the library's own name-consuming edits at exhaustion: on rectangular grids 2x2 .. 7x6 over the alphabets 'xy' and
+     'xyz' (4 conventions x 2 atmosphere types x blanks allowed or not), split_column / triangulate_column (subdivide_column)
+     / refine repeated until no column or node name of the alphabet is free, and once more: the operation that needs a
+     name past capacity must raise NamingConventionError (not return quietly, not duplicate / truncate a name, not drop
+     a column); before that it must succeed and keep names distinct, of the convention's length, and the plan area;
   F  fix_blockname / unfix_blockname / fix_block_mapping on all 7776 five-character strings over {a,B,0,1,9,blank}
      (thorough: also all 100000 over a 10-letter alphabet) and on every block name of every geometry built above.
 Oracle: the property statement (distinct names of the convention's length; explicit NamingConventionError exactly when
@@ -125,6 +130,10 @@ def units(tier):
         for b in range(4):
             if a != b:
                 us.append(('GR', a, b))
+    for conv in range(4):
+        for cs in EDIT_CHARSETS:
+            for seq in EDIT_SEQUENCES:
+                us.append(('ED', conv, cs, seq))
     us.append(('F', FIX_ALPHA, ''))
     if tier == 'thorough':
         for c in FIX_ALPHA_BIG:
@@ -863,6 +872,146 @@ def run_GR(unit, tier, rec):
     rec.count('convention_assignments_refused', refused)
 
 
+# ---------------------------------------------------------------------------------------------------------
+# ED: the library's own name-consuming edit operations, repeated until the name space of the alphabet handed in is used
+# up, and once more.  Reference: the free names are the letter names of the convention's column-name length that no
+# column (node) of the geometry carries; split_column needs 1 column name, triangulate_column of an n-sided column needs
+# 1 node name and n column names (the replaced column's name is released afterwards), refine needs at least 1 node name.
+
+EDIT_CHARSETS = ('xy', 'xyz')
+EDIT_SEQUENCES = ('split', 'triangulate', 'triangulate-then-split', 'refine')
+EDIT_GRIDS = ((2, 2), (3, 2), (3, 3), (6, 4), (7, 6))
+
+
+def free_names(dct, chars, L, spaces):
+    used = 0
+    for nm in dct:
+        if isinstance(nm, str) and N.in_letter_namespace(nm.strip(' '), chars, L, spaces):
+            used += 1
+    return N.letter_capacity(len(chars), L, spaces) - used
+
+
+def edit_postconditions(geo, CL, area0, ncols_want, nnodes_want):
+    out = []
+    for what, lst, dct, want in (('column', geo.columnlist, geo.column, ncols_want), ('node', geo.nodelist, geo.node, nnodes_want)):
+        nm = [x.name for x in lst]
+        if len(nm) != len(dct) or (want is not None and len(nm) != want):
+            out.append(('%s-lost' % what, '%d %ss in list, %d in dictionary%s' % (len(nm), what, len(dct),
+                                                                                  '' if want is None else ', expected %d' % want)))
+        if len(set(nm)) != len(nm):
+            out.append(('duplicate-name', 'duplicate %s names' % what))
+        bad = [x for x in nm if not isinstance(x, str) or len(x) != CL]
+        if bad:
+            out.append(('name-length', '%s names not of length %d: %r' % (what, CL, bad[:3])))
+    area = sum(c.area for c in geo.columnlist)
+    if abs(area - area0) > 1e-9 * area0:
+        out.append(('column-lost', 'total column area %r after the edit, %r before: a column was dropped or not added' % (area, area0)))
+    return out
+
+
+def edit_sequence(conv, cs, seq, spaces, atm, grid):
+    """-> (violations [(sig, what, step)], operations applied, set of operations for which exhaustion was reached)."""
+    m = lib()
+    chars = cs
+    CL = N.COLNAME_LENGTH[conv]
+    nx, ny = grid
+    viol, reached = [], set()
+    desc = '%s on rectangular(%dx%dx1, convention %d, atmos_type %d, chars %r, spaces %s)' % (seq, nx, ny, conv, atm, cs, spaces)
+
+    def add(op, clause, rel, step, what):
+        viol.append(('C17|%s|%s|conv=%d,%s|edit-sequence' % (op, clause, conv, rel), '%s, operation %d (%s): %s' % (desc, step, op, what), step))
+
+    try:
+        with quiet():
+            geo = m.mulgrid().rectangular([10.0] * nx, [10.0] * ny, [5.0], convention=conv, atmos_type=atm,
+                                          justify='r', chars=chars, spaces=spaces)
+    except m.NamingConventionError:
+        return viol, 0, reached          # this grid cannot be named with the alphabet: nothing to edit
+    cap = N.letter_capacity(len(chars), CL, spaces if seq != 'split' else True)
+    steps = 0
+    phase = 'triangulate' if seq.startswith('triangulate') else seq
+    for it in range(2 * cap + 8):          # every operation uses up at least one name: the bound cannot be reached
+        quads = [c for c in geo.columnlist if c.num_nodes == 4]
+        sp_eff = True if phase == 'split' else spaces          # split_column has no 'spaces' option
+        fc = free_names(geo.column, chars, CL, sp_eff)
+        fn = free_names(geo.node, chars, CL, sp_eff)
+        if phase == 'triangulate' and seq == 'triangulate-then-split' and (fc < 4 or fn < 1):
+            phase = 'split'
+            continue
+        if phase in ('split', 'triangulate') and not quads:
+            break                              # no column left to operate on before the names ran out: nothing claimed
+        if phase == 'split':
+            col = quads[0]
+            need_c, need_n, op = 1, 0, 'split_column'
+            call = lambda: geo.split_column(col.name, col.node[0].name, chars)
+            want_cols, want_nodes = len(geo.columnlist) + 1, len(geo.nodelist)
+        elif phase == 'triangulate':
+            col = quads[0]
+            need_c, need_n, op = 4, 1, 'triangulate_column'
+            call = lambda: geo.triangulate_column(col.name, chars, spaces)
+            want_cols, want_nodes = len(geo.columnlist) + 3, len(geo.nodelist) + 1
+        else:
+            col = geo.columnlist[0]
+            need_c, need_n, op = None, 1, 'refine'
+            call = lambda: geo.refine([col], chars=chars, spaces=spaces)
+            want_cols, want_nodes = None, None
+        must_raise = fn < need_n or (need_c is not None and fc < need_c)
+        must_succeed = need_c is not None and not must_raise
+        rel = 'above-capacity' if must_raise else ('at-capacity' if (need_c is not None and fc == need_c and fn >= need_n) else 'below-capacity')
+        area0 = sum(c.area for c in geo.columnlist)
+        steps += 1
+        try:
+            with quiet():
+                with core.timelimit(CALL_LIMIT * 3):
+                    res = call()
+        except m.NamingConventionError:
+            if must_succeed:
+                add(op, 'premature-naming-error', rel, steps, 'NamingConventionError although %d column and %d node names are free '
+                    'and %d / %d are needed' % (fc, fn, need_c, need_n))
+            if must_raise:
+                reached.add(op)
+            break                              # the geometry may be half edited: error states are not expanded
+        except core.CaseTimeout:
+            add(op, 'does-not-terminate', rel, steps, 'no result within %d s (%d column, %d node names free)' % (CALL_LIMIT * 3, fc, fn))
+            break
+        except Exception as e:
+            add(op, 'raises-%s' % type(e).__name__, rel, steps, 'raised %r (%d column, %d node names free)' % (e, fc, fn))
+            break
+        if must_raise:
+            reached.add(op)
+            add(op, 'no-naming-error', rel, steps, 'returned %r without NamingConventionError although %d column / %d node names '
+                'are free and %s / %d are needed' % (res, fc, fn, need_c if need_c is not None else '>=0', need_n))
+            break
+        if op == 'split_column' and res is not True:
+            add(op, 'edit-refused', rel, steps, 'returned %r for a quadrilateral column and one of its nodes with %d names free' % (res, fc))
+            break
+        post = edit_postconditions(geo, CL, area0, want_cols, want_nodes)
+        for c, w in post:
+            add(op, c, rel, steps, w)
+        if post:
+            break
+    else:
+        add(seq, 'names-never-run-out', 'above-capacity', steps, '%d operations without exhausting %d names' % (steps, cap))
+    return viol, steps, reached
+
+
+def run_ED(unit, tier, rec):
+    _, conv, cs, seq = unit
+    for spaces in ((True,) if seq == 'split' else (True, False)):
+        for atm in (0, 2):
+            for grid in EDIT_GRIDS:
+                with core.timelimit(300):
+                    viol, steps, reached = edit_sequence(conv, cs, seq, spaces, atm, grid)
+                rec.case(('ED', conv, cs, seq, spaces, atm, grid), nontrivial=steps > 0,
+                         outcome='edit-sequence:' + ('exhausted' if reached else ('not-exhausted' if steps else 'grid-not-nameable')))
+                rec.count('edit_operations', steps)
+                for op in reached:
+                    rec.count('exhaustion_reached:' + op, 1)
+                for sig, what, st in viol:
+                    rec.violation(sig, what, {'kind': 'edit-sequence', 'conv': conv, 'chars': cs, 'seq': seq, 'spaces': spaces,
+                                              'atmos': atm, 'grid': list(grid), 'step': st})
+
+
 def run_X(unit, tier, rec):
     _, conv, atm, j, cs, sp, nx, ny, nz = unit
     with core.timelimit(600):
@@ -988,6 +1137,8 @@ def _run_unit(unit, tier, rec):
         run_X(unit, tier, rec)
     elif k == 'GR':
         run_GR(unit, tier, rec)
+    elif k == 'ED':
+        run_ED(unit, tier, rec)
     elif k == 'F':
         run_F(unit, tier, rec)
     else:
@@ -995,6 +1146,9 @@ def _run_unit(unit, tier, rec):
 
 
 def finalize(rec, tier):
+    for op in ('split_column', 'triangulate_column', 'refine'):
+        if not rec.counters.get('exhaustion_reached:' + op):
+            raise core.HarnessError('no edit sequence reached the exhaustion of names for %s: the ED units are vacuous' % op)
     return {'distinct_nontrivial': len(rec.distinct) + rec.counters.get('generator_cases_distinct_by_construction', 0),
             'distinct_hashed': len(rec.distinct),
             'dimensions': {'integer': 'crossed 0..20000', 'convention': 'crossed', 'atmosphere_type': 'crossed',
@@ -1029,6 +1183,10 @@ def replay(case):
                                       geo=geo, fresh=fresh,
                                       after='built-by-rectangular-under-convention-%d-then-convention-assigned' % case['from'])
         return [(s, w) for s, w, num in viol if num == case['n']]
+    if k == 'edit-sequence':
+        viol, steps, reached = edit_sequence(case['conv'], case['chars'], case['seq'], case['spaces'], case['atmos'],
+                                             tuple(case['grid']))
+        return [(s, w) for s, w, st in viol]
     if k == 'int_to_chars':
         viol, n = check_int_to_chars(case['justify'], case['chars'], case['spaces'], case['length'], nmax=case['n'])
         return [(s, w) for s, w, num in viol if num == case['n']]
